@@ -97,6 +97,10 @@ def gen(rng, tier):
             seqs.append(("http", base, (name, hdrs)))
     seqs.append(("http", (7,), ("push-path-bytes", None)))
     seqs.append(("http", (0, 7, 4), ("push-path-bytes", None)))
+    # ... and into the trailers of a response that announced them (towards clients that take trailers and clients that do not)
+    for name, hdrs in BAD_HEADERS:
+        seqs.append(("http", (2, 4, 6), ("trailers:" + name, hdrs)))
+        seqs.append(("http", (2, 3, 4, 6), ("trailers:" + name, hdrs)))
     # what else of the application's ends up in a header block: the links of an early hint (link header values), the path of a push (:path)
     for nm_ in EH_LINKS:
         seqs.append(("http", (8,), (nm_, None)))
@@ -137,6 +141,10 @@ def gen(rng, tier):
                         done_sub = True
                     elif sub[0] in EH_LINKS or sub[0] == "push-path-crlf":
                         pass
+                    elif sub[0].startswith("trailers:"):
+                        if nm == "T":
+                            m["headers"] = sub[1]
+                            done_sub = True
                     elif sub[0] != "push-path-bytes" and sub[1] is not None and nm in ("S", "S2", "S_TR", "T", "P"):
                         m["headers"] = sub[1]
                         done_sub = True
@@ -292,7 +300,8 @@ def http_automaton(msgs, proto, te, final_state=False):
             else:
                 verdict = "unjudged"
         elif t == "http.response.trailers":
-            if not _hdrs_ok(m.get("headers", [])) and proto == "h2" and te and state in ("REQUEST", "TRAILERS"):
+            if not _hdrs_ok(m.get("headers", [])) and proto == "h2" and (state == "TRAILERS" or (te and state == "REQUEST")):
+                # (whether or not this client takes trailers: the message itself is invalid)
                 verdict = "invalid"
             else:
                 verdict = "unjudged"
@@ -530,8 +539,9 @@ def check(case, obs, tally):
 def _class(t, i):
     m = t["msgs"][i]
     ty = m["type"]
-    if t["sub"] and ("headers" in m or "path" in m) and (t["sub"] in [n for n, _ in BAD_HEADERS] or t["sub"].startswith("accept:") or t["sub"] == "push-path-bytes"):
-        sub = t["sub"].replace("accept:", "")
+    if t["sub"] and ("headers" in m or "path" in m) and (t["sub"] in [n for n, _ in BAD_HEADERS] or t["sub"].startswith("accept:") or t["sub"].startswith("trailers:")
+                     or t["sub"] == "push-path-bytes"):
+        sub = t["sub"].replace("accept:", "").replace("trailers:", "")
         if sub in ("crlf-val", "lf-val", "cr-val", "nul-val", "crlf-name", "nul-name", "crlf-val-memoryview", "nul-val-bytearray", "crlf-name-memoryview"):
             return "ctl-bytes-header"
         if sub in ("val-str", "name-str", "val-int", "val-none"):
